@@ -380,16 +380,27 @@ func verifyRecovered(k *mon.Case, rep caseReporter, ref *faultRun, states []*ref
 	if oerr != nil {
 		// what had happened to the block files before the (first) crash
 		diag := ""
+		sawDelete, sawTrunc := false, false
 		for _, l := range lines {
 			if l.Type == 'K' {
 				break
 			}
 			if l.Type == 'T' {
-				diag = ":after-powerloss-dropped-unsynced-bytes"
+				sawTrunc = true
 			}
-			if l.Type == 'E' && l.Event.Kind == "blk-delete" && diag == "" {
-				diag = ":after-block-file-deletion"
+			if l.Type == 'E' && l.Event.Kind == "blk-delete" {
+				sawDelete = true
 			}
+		}
+		// a block file deleted by a prune whose metadata never became durable explains the failure whether or
+		// not the power loss also dropped unsynced bytes of other files
+		switch {
+		case sawDelete && sawTrunc:
+			diag = ":after-block-file-deletion+powerloss"
+		case sawDelete:
+			diag = ":after-block-file-deletion"
+		case sawTrunc:
+			diag = ":after-powerloss-dropped-unsynced-bytes"
 		}
 		k.Violation(tag+"reopen-failed:"+codeOf(oerr)+diag, "database.Open after the crash failed: "+oerr.Error()+"\n"+ctxDetail, nil)
 		return
